@@ -626,7 +626,7 @@ func (c *FuncCtx) specBuiltin(st *State, name string, x *ast.CallExpr) ([]*Val, 
 			t = tInt
 		}
 		return []*Val{{T: t, S: mkSel(app(uf, v.S), k.S), Sort: "Int"}}, true
-	case "ncalls", "callarg", "callres", "calltime":
+	case "ncalls", "callarg", "callres", "calltime", "nfails":
 		return c.traceBuiltin(st, name, x)
 	case "fst", "snd":
 		vs := c.evalMulti(st, x.Args[0])
